@@ -329,6 +329,7 @@ type SimASG struct {
 }
 
 type AwsSim struct {
+	failAttach bool // every AttachInstances call of this scan is refused (fleetfail histories)
 	autoscalingiface.AutoScalingAPI
 	rec    *Recorder
 	asgs   map[string]*SimASG
@@ -464,7 +465,7 @@ func (a *AwsSim) AttachInstances(in *autoscaling.AttachInstancesInput) (*autosca
 		ids = append(ids, awsapi.StringValue(p))
 	}
 	g, ok := a.asgs[name]
-	bad := fail || !ok || g.Gone || len(ids) > 20
+	bad := fail || a.failAttach || !ok || g.Gone || len(ids) > 20
 	if !bad {
 		for _, id := range ids {
 			if !a.ec2.pending[id] {
